@@ -14,7 +14,7 @@ from vpkit import common, zoo
 
 ID = "C31"
 N = {"quick": 160, "thorough": 4000}
-BUDGET = {"quick": 240.0, "thorough": 1500.0}
+BUDGET = {"quick": 240.0, "thorough": 700.0}
 RULE = ("case = (undated input, output of one of the three methods, or input with synthetic mn "
         "metadata that does not respect the topology; sites with 0, 1 and several nested / recurrent "
         "mutations, mutations above roots; all node_selection values, min_time 0/1e-9/1/1e3, "
